@@ -111,6 +111,7 @@ func run_simulation(args []string) {
 
 		// === RUN GENERATION ===
 		genSimulationTime, nodesInGeneration := runGeneration(i, models, modelNames) // synchronous
+		verifTrace("ran", i)
 		nodesCompleted += nodesInGeneration
 		totalTimeSimulation += genSimulationTime
 		// === /RUN GENERATION ===
@@ -118,28 +119,35 @@ func run_simulation(args []string) {
 		// === WRITE GENERATION OUTPUTS ===
 		// asynchronous
 		if outputFn != "" {
+			verifTrace("spawn", i)
 			go func(g int) {
+				verifTrace("start", g)
 				if g > 0 {
 					prevG := -1
 					for {
 						prevG = <-writingDone
+						verifTrace(fmt.Sprintf("recv:%d", g), prevG)
 
 						for _, modelName := range modelNames {
 							modelRef := models[modelName]
 							modelRef.PurgeGeneration(prevG)
 						}
 
+						verifTrace(fmt.Sprintf("purged:%d", g), prevG)
 						if prevG == (g - 1) {
 							break
 						}
 						verbosePrintf("Waiting for generation %d, got generation %d, sleeping\n", g, prevG)
 						writingDone <- prevG
+						verifTrace(fmt.Sprintf("putback:%d", g), prevG)
 						time.Sleep(time.Duration(1000 * 1000 * 500)) // Half a second
 					}
 				}
 
 				writeGeneration(g, models, modelNames)
+				verifTrace("written", g)
 				writingDone <- g
+				verifTrace("sent", g)
 			}(i)
 		}
 		// fmt.Printf("Results written in %f seconds\n", genWriteElapsed.Seconds())
@@ -194,6 +202,7 @@ func run_simulation(args []string) {
 			data.AddToFloat64Array(destData, srcData)
 			nextLink++
 		}
+		verifTrace("linked", i)
 		genLinkEnd := time.Now()
 		genLinkElapsed := genLinkEnd.Sub(genLinkStart).Seconds()
 		totalTimeLinks += genLinkElapsed
@@ -211,16 +220,19 @@ func run_simulation(args []string) {
 	if outputFn != "" {
 		for {
 			genFinished := <-writingDone
+			verifTrace("main-recv", genFinished)
 			if genFinished == (genCount - 1) {
 				verbosePrintf("Generation %d finished writing\n", genFinished)
 				break
 			}
 			verbosePrintf("Waiting for final generation (%d), got generation %d, sleeping\n", genCount-1, genFinished)
 			writingDone <- genFinished
+			verifTrace("main-putback", genFinished)
 			time.Sleep(time.Duration(500 * 1000 * 1000))
 		}
 	}
 
+	verifTrace("exit", genCount)
 	simEnd := time.Now()
 	finalWriteElapsed := simEnd.Sub(generationsEnd)
 	totalTimeFinalWrite = finalWriteElapsed.Seconds()
